@@ -67,6 +67,8 @@ def run(ctx):
     ctx.ob('PITCHCLASS/reduced', fi_, fi_.node, v_ == pitfalls.OK, why_, construct='%s returns a pitch class in 0..11' % q, definite=(v_ == pitfalls.BAD),
            unknown=why_ if v_ == pitfalls.UNKNOWN else None)
   quality_needs_all_degrees(ctx, 'CHORD/quality-needs-all-degrees')
+  from rules import C15 as _c15      # the chord encodings read root and quality through chord_symbols_lib: a symbol of the grammar must not die with KeyError there
+  _c15.regex_groups_into_tables(ctx, 'CHORD/regex-group-into-table')
   event_validator_admits(ctx)
   chord_labels_below_num_classes(ctx)
   melody(ctx)
